@@ -56,9 +56,9 @@ func H_C10_laws2() {
 	nd.Reach("end")
 }
 
-var c10Law3 = ref.Opts{Kinds: ref.KNil | ref.KInt | ref.KUint | ref.KFloat | ref.KString | ref.KBool, MaxStr: 1, IntSafe: true}
+var c10Law3 = ref.Opts{Kinds: ref.KNil | ref.KInt | ref.KUint | ref.KFloat | ref.KString | ref.KBool, MaxStr: 1, SmallInts: true}
 
-//verif:harness props=C10 tier=thorough bounds="transitivity on triples of primitives nil/int64/uint64/float64/string<=1/bool (ints within 2^53)"
+//verif:harness props=C10 tier=thorough bounds="transitivity on triples of primitives nil/int64,uint64 (boundary set {-1,0,1,2,2^53})/float64 (symbolic)/string<=1/bool; full-width integer triples are H_C10_trans3_int, and sign agreement of every pair with the reference order (which is transitive) is decided at full width by the num_sign harnesses"
 func H_C10_trans3() {
 	a := ref.Value("a", c10Law3)
 	b := ref.Value("b", c10Law3)
